@@ -864,7 +864,8 @@ pub fn run(ctx: &Ctx) -> Report {
          every map with 2-4 keys. Fault documents: every single injection (unknown key per section, wrong type / degenerate number per scalar, unknown kinds, dangling names) x 3 formats: strict pipeline fails, lossy \
          loading either rejects the document or keeps every healthy part working; never a panic. Non-trivial = configuration with at least one defaulted field, or a fault document",
     );
-    let cat = catalogue(ctx.tier);
+    // the thorough catalogue is cheap enough for every run
+    let cat = catalogue(Tier::Thorough);
     let bad: Vec<(usize, (String, String))> = cat.par_iter().enumerate().filter_map(|(i, lc)| if ctx.over_cap() { None } else { check_lc(lc).map(|m| (i, m)) }).collect();
     rep.add("evaluations", cat.len() as u64 * 4);
     rep.set("logical_configurations", cat.len() as u64);
